@@ -136,20 +136,28 @@ theorem uvintEnc_is_wire (v : BitVec 64) : uvintEnc v = CqlSpec.uvintSpec v.toNa
 theorem zigzagEnc_is_wire (v : BitVec 64) : (zigzagEnc v).toNat = CqlSpec.zigzagSpec v.toInt :=
   CodecSpec.zigzag_eq_spec v
 
-/-- **Conformance of the content.**  For every type whose UDTs have distinct field names, whatever `encSpec`
-(the model's specification-side encoder, which shares `viewOf` / `lookupLast` with `encImpl`) produces is the
-encoding defined by `CqlSpec.specCell` — written from the protocol text without any of those helpers:
-big-endian widths per native, `decimal` = scale ++ unscaled, `duration` = three arithmetic zig-zag vints,
-`inet` 4 / 16 bytes, collections `[int n]` + `[bytes]` elements, tuple prefix, UDT fields in *type* order with
-null for absent ones (last duplicate wins), vectors by its own fixed-width table. -/
+/-- **Conformance of the content.**  `CqlSpec.specCell t v` is the protocol's `[bytes]` of `v` at `t`, defined
+exactly for null, not-set and the *values of the type* (`CqlSpec.cellOk`: 7-bit ascii, `time` within a day,
+varint of at least one byte, *empty* only for natives other than counter / duration, fixed-width vector
+elements of exactly their width and never null, a tuple value with at least one field, UDT fields of the type
+only) — written from the protocol text with none of the model's helpers.  For every type whose UDTs have
+distinct field names and every such value, whatever `encSpec` (which shares `viewOf` / `lookupLast` with
+`encImpl`) produces is that encoding: big-endian widths per native, `decimal` = scale ++ unscaled,
+`duration` = three arithmetic zig-zag vints, `inet` 4 / 16 bytes, collections `[int n]` + `[bytes]` elements,
+tuple prefix, UDT fields in *type* order with null for absent ones (last duplicate wins), vectors by the
+spec's own fixed-width table. -/
 theorem encSpec_is_wire (t : CqlTy) (v : CqlVal) (cell : Bytes) (hty : CqlSpec.wfTy t = true)
-    (h : encSpec t v true = .ok cell) : CqlSpec.specCell t v = some cell :=
-  CodecSpec.cell_of_body t (CodecSpec.sound t hty) v cell h
+    (hok : CqlSpec.cellOk t v = true) (h : encSpec t v true = .ok cell) : CqlSpec.specCell t v = some cell := by
+  unfold CqlSpec.specCell
+  rw [if_pos hok]
+  exact CodecSpec.cell_of_body t (CodecSpec.sound t hty) v cell h
 
-/-- **The serializer writes the CQL v4 wire encoding**: for every dynamic value, every type and every buffer,
-if `serialize` succeeds it has appended exactly `CqlSpec.specCell t v`. -/
+/-- **The serializer writes the CQL v4 wire encoding**: for every dynamic value *of the type*, every type and
+every buffer, if `serialize` succeeds it has appended exactly `CqlSpec.specCell t v`.  (Where it succeeds on
+something that is not a value of the type — C01-F1, C01-F9 — the output is NOT an encoding: see
+`roundtrip_counterexample`, `vector_empty_element_counterexample`.) -/
 theorem encImpl_wire (t : CqlTy) (v : CqlVal) (buf out : Bytes) (hty : CqlSpec.wfTy t = true)
-    (hd : v.isDyn = true) (h : encImpl t v true buf = .ok out) :
+    (hok : CqlSpec.cellOk t v = true) (hd : v.isDyn = true) (h : encImpl t v true buf = .ok out) :
     ∃ s, out = buf ++ s ∧ CqlSpec.specCell t v = some s := by
   rw [encImpl_eq_encSpec_dyn t v buf hd] at h
   cases hs : encSpec t v true with
@@ -157,7 +165,30 @@ theorem encImpl_wire (t : CqlTy) (v : CqlVal) (buf out : Bytes) (hty : CqlSpec.w
   | ok s =>
     rw [hs] at h
     cases h
-    exact ⟨s, rfl, encSpec_is_wire t v s hty hs⟩
+    exact ⟨s, rfl, encSpec_is_wire t v s hty hok hs⟩
+
+/-- **Typed carriers write the wire encoding of their embedding**: for every carrier `c`, Rust value `x` of
+that type (`wtVal`), CQL type `t` the carrier is compatible with (`compat`: everything but `MaybeEmpty` at a
+non-emptiable type and a set carrier at a vector type) with distinct UDT field names, if the embedding is a
+value of the type and the typed `serialize` succeeds, it has appended exactly `specCell t (embed c x)` —
+`Vec<Option<T>>`, `MaybeUnset<T>` (not `isDyn`) included. -/
+theorem carrier_wire (c : Carrier) (t : CqlTy) (x : RustVal) (buf out : Bytes)
+    (hwt : wtVal c x = true) (hc : compat c t = true) (hty : CqlSpec.wfTy t = true)
+    (hok : CqlSpec.cellOk t (embed c x) = true) (h : serCarrier c t x true buf = .ok out) :
+    ∃ s, out = buf ++ s ∧ CqlSpec.specCell t (embed c x) = some s := by
+  rw [CarrierFactor.factor c t x true buf hwt hc] at h
+  cases hs : encSpec t (embed c x) true with
+  | error e =>
+    by_cases hb : e = .bareNullInVector
+    · -- a bare null / unset vector element is not a value of the type: excluded by `hok`
+      subst hb
+      exact absurd hok (CodecSpec.cellOk_not_bare t _ hty hs)
+    · rw [encImpl_eq_encSpec t _ true buf (by rw [hs]; intro h'; cases h'; exact hb rfl), hs] at h
+      cases h
+  | ok s =>
+    rw [encImpl_eq_encSpec t _ true buf (by rw [hs]; intro h'; cases h'), hs] at h
+    cases h
+    exact ⟨s, rfl, encSpec_is_wire t _ s hty hok hs⟩
 
 -- non-vacuity: a UDT value with reordered, duplicated (last wins) and missing fields
 set_option maxRecDepth 100000 in
